@@ -270,6 +270,7 @@ MUTANTS = [
     M("c11.2-data-valid", "C11", "C11.2", AVF, "wdata_fifo.sink.valid.eq(avalon.write & ~avalon.waitrequest),", "wdata_fifo.sink.valid.eq(avalon.write),"),
     M("c11.2-waitreq", "C11", "C11.2", AVF, "avalon.waitrequest.eq(~(cmd_fifo.sink.ready & wdata_fifo.sink.ready)),", "avalon.waitrequest.eq(~cmd_fifo.sink.ready),"),
     M("c11.2-cmd-nodata", "C11", "C11.2", AVF, "port.cmd.valid.eq(cmd_fifo.source.valid & (0 < wdata_fifo.level)),", "port.cmd.valid.eq(cmd_fifo.source.valid),"),
+    M("c11.2-exit-gap", "C11", "C11.2", AVF, "If((burst_count == 0) & (cmd_fifo.level == 0) & (wdata_fifo.level == 1) & port.wdata.ready,", "If((cmd_fifo.level == 0) & (wdata_fifo.level == 1) & port.wdata.ready,"),
     M("c11.3-latch", "C11", "C11.3", AVF, "                writedata.eq(avalon.writedata),\n", ""),
     M("c11.4-offset", "C11", "C11.4", AVF, "address.eq(avalon.address - address_offset),", "address.eq(avalon.address),"),
     # ---- C13 ----
